@@ -562,8 +562,8 @@ def execute(prop, plan, tier, seed, expinfo, t_start, exp=None):
                     for v in reported:
                         fnkey = v.get('fn') or (v.get('tag') or '').rsplit('/', 1)[0]
                         if v.get('backend') == 'verus' and fnkey in same and v.get('kind') in ('postcondition', 'invariant', 'closure-postcondition', 'assertion'):
-                            undecided.append('%s: refuted by Verus but NOT reproduced on the real code: %s returns the same results as HEAD and satisfies '
-                                             'every evaluated clause on %d pseudo-random inputs (proof not re-established for the changed body)'
+                            undecided.append('%s: refuted by Verus but NOT reproduced on the real code: %s returns the same results as HEAD (which satisfies the contract) '
+                                             'on %d pseudo-random inputs (proof not re-established for the changed body)'
                                              % (v['tag'], same[fnkey].get('call'), replay_diff.TRIALS))
                         else:
                             keep.append(v)
